@@ -46,11 +46,54 @@ struct SimBadAlloc : std::bad_alloc
 // (ledger, violation reporting) suspends the counting
 inline int g_in_lib = 0;
 inline std::uint64_t g_new_in_lib = 0;
+#ifdef SIM_TSAN
+extern "C" void AnnotateIgnoreReadsBegin(const char* file, int line);
+extern "C" void AnnotateIgnoreReadsEnd(const char* file, int line);
+extern "C" void AnnotateIgnoreWritesBegin(const char* file, int line);
+extern "C" void AnnotateIgnoreWritesEnd(const char* file, int line);
+inline thread_local bool t_tsan_ignoring = false;
+inline volatile bool g_tsan_gate = false;  // only while reader tasks exist (C19 read phase)
+// Harness code runs with all of its memory accesses ignored by ThreadSanitizer (it is serialised by a hand-off TSan
+// cannot see); only library calls are made visible.
+inline void tsan_visible(bool on, bool force = false)
+{
+    if (!g_tsan_gate && !force) return;
+    if (on && t_tsan_ignoring)
+    {
+        AnnotateIgnoreReadsEnd(__FILE__, __LINE__);
+        AnnotateIgnoreWritesEnd(__FILE__, __LINE__);
+        t_tsan_ignoring = false;
+    }
+    else if (!on && !t_tsan_ignoring)
+    {
+        AnnotateIgnoreReadsBegin(__FILE__, __LINE__);
+        AnnotateIgnoreWritesBegin(__FILE__, __LINE__);
+        t_tsan_ignoring = true;
+    }
+}
+#else
+inline void tsan_visible(bool, bool = false) {}
+#endif
+
 struct HarnessScope
 {
     int saved;
+#ifdef SIM_TSAN
+    bool was_visible;
+    HarnessScope() noexcept : saved(g_in_lib), was_visible(g_tsan_gate && !t_tsan_ignoring)
+    {
+        g_in_lib = 0;
+        if (was_visible) tsan_visible(false);
+    }
+    ~HarnessScope()
+    {
+        g_in_lib = saved;
+        if (was_visible) tsan_visible(true);
+    }
+#else
     HarnessScope() noexcept : saved(g_in_lib) { g_in_lib = 0; }
     ~HarnessScope() { g_in_lib = saved; }
+#endif
     HarnessScope(const HarnessScope&) = delete;
 };
 
